@@ -6,10 +6,35 @@ import (
 	"flag"
 	"fmt"
 	"os"
+	"runtime"
+	"strings"
 	"time"
 
 	"verif/harness/conc"
 )
+
+// parkedOnLocks returns the goroutines of this process that wait for a sync.RWMutex or sync.Mutex (first lines of each).
+func parkedOnLocks() string {
+	buf := make([]byte, 1<<22)
+	buf = buf[:runtime.Stack(buf, true)]
+	var out []string
+	for _, g := range strings.Split(string(buf), "\n\n") {
+		if strings.Contains(g, "sync.(*RWMutex)") || strings.Contains(g, "sync.(*Mutex)") {
+			lines := strings.Split(g, "\n")
+			if len(lines) > 9 {
+				lines = lines[:9]
+			}
+			out = append(out, strings.Join(lines, " | "))
+		}
+		if len(out) == 4 {
+			break
+		}
+	}
+	if len(out) == 0 {
+		return "(no goroutine parked on a lock found in the dump)"
+	}
+	return "goroutines parked on locks: " + strings.Join(out, " || ")
+}
 
 func init() {
 	register("conc-record", func(args []string) int {
@@ -64,12 +89,29 @@ func init() {
 			}
 		}
 		if *stress {
-			problems = append(problems, conc.OverwriteStress(*seed, 400*time.Millisecond)...)
-			problems = append(problems, conc.FirstUseStress(*seed, *rounds)...)
-			problems = append(problems, conc.DenyStress(*seed, *rounds/4+200)...)
-			problems = append(problems, conc.SharedRemoveStress(*seed, *rounds/10+100)...)
-			problems = append(problems, conc.AtomicityStress(*seed, *rounds/20+150)...)
-			problems = append(problems, conc.DuringSendStress(*seed, *rounds/100+60)...)
+			// the stresses call the Broker from many goroutines, some of them from inside nodes: a stress whose calls never
+			// come back is a verdict about the Broker (it is stuck), not a hang of the recorder
+			wedged := false
+			guard := func(name string, fn func() []conc.Problem) {
+				if wedged {
+					return
+				}
+				c := make(chan []conc.Problem, 1)
+				go func() { c <- fn() }()
+				select {
+				case ps := <-c:
+					problems = append(problems, ps...)
+				case <-time.After(300 * time.Second):
+					problems = append(problems, conc.Problem{Prop: "C04", What: name + " did not finish within 300 s: Broker calls (Send, registration, removal, threshold setters) never returned - the Broker is stuck; " + parkedOnLocks()})
+					wedged = true // leaked goroutines hold locks: stop here
+				}
+			}
+			guard("overwrite stress", func() []conc.Problem { return conc.OverwriteStress(*seed, 400*time.Millisecond) })
+			guard("first-use stress", func() []conc.Problem { return conc.FirstUseStress(*seed, *rounds) })
+			guard("deny stress", func() []conc.Problem { return conc.DenyStress(*seed, *rounds/4+200) })
+			guard("shared-remove stress", func() []conc.Problem { return conc.SharedRemoveStress(*seed, *rounds/10+100) })
+			guard("atomicity stress", func() []conc.Problem { return conc.AtomicityStress(*seed, *rounds/20+150) })
+			guard("during-send stress", func() []conc.Problem { return conc.DuringSendStress(*seed, *rounds/100+60) })
 		}
 		if problems == nil {
 			problems = []conc.Problem{}
